@@ -719,7 +719,7 @@ def budget(tier, prop=None):
     if tier == 'quick':
         return {'runs': 400 if prop == 'C12' else 800, 'wall': 75, 'chunk': 4, 'selftest': 6, 'minimise_s': 60,
                 'canary_runs': 600, 'canary_wall': 90}
-    return {'runs': 30000, 'wall': 1200, 'chunk': 16, 'selftest': 16, 'minimise_s': 180,
+    return {'runs': 30000, 'wall': 900, 'chunk': 16, 'selftest': 16, 'minimise_s': 180,
             'canary_runs': 600, 'canary_wall': 90}
 
 
